@@ -107,7 +107,7 @@ fn token(rng: &mut Rng, n: usize) -> String {
 pub fn gen_uri(rng: &mut Rng, tag: &str) -> Vec<u8> {
     let tl = 1 + rng.below(6);
     let t = if tag.is_empty() { token(rng, tl) } else { tag.to_string() };
-    let s = match rng.weighted(&[50, 10, 8, 8, 4, 4, 4, 4, 4, 4, 3, 2, 2, 4, 2, 2, 1, 1]) {
+    let s = match rng.weighted(&[50, 10, 8, 8, 4, 4, 4, 4, 4, 4, 3, 2, 2, 4, 2, 2, 1, 1, 1]) {
         0 => format!("/{}", t),
         1 => format!("/{}/{}?q={}", token(rng, 3), t, token(rng, 4)),
         2 => format!("http://localhost/{}", t),
@@ -128,7 +128,9 @@ pub fn gen_uri(rng: &mut Rng, tag: &str) -> Vec<u8> {
         // the scheme prefix repeated, or appearing inside the authority / path (only ONE prefix is the scheme)
         15 => format!("http://http://localhost/{}", t),
         16 => format!("http://http://http://{}", t),
-        _ => format!("http://host/http://{}", t),
+        17 => format!("http://host/http://{}", t),
+        // long paths (lengths beyond 255)
+        _ => format!("/{}/{}", "p".repeat(rng.range(200, 900)), t),
     };
     s.into_bytes()
 }
@@ -201,7 +203,11 @@ pub fn gen_request(rng: &mut Rng, cfg: &GenCfg, tag: &str) -> GenReq {
     }
     let version: &[u8] = if rng.chance(1, 2) { b"HTTP/1.1" } else { b"HTTP/1.0" };
     let mut headers: Vec<Vec<u8>> = Vec::new();
-    let nh = rng.weighted(&[20, 25, 25, 15, 8, 4, 3]);
+    let mut nh = rng.weighted(&[20, 25, 25, 15, 8, 4, 3]);
+    if cfg.allow_big && rng.chance(1, 150) {
+        // a header block of dozens to hundreds of lines (several receive windows long)
+        nh = rng.range(40, 300);
+    }
     for _ in 0..nh {
         headers.push(gen_header_line(rng, cfg));
     }
@@ -663,4 +669,39 @@ pub fn gen_schedule(rng: &mut Rng, stream: &[u8], m: &ModelOut, window: usize, p
 
 pub fn model_of(stream: &[u8], limit: usize, window: usize) -> ModelOut {
     model_stream(stream, limit, window)
+}
+
+
+/// A stream around one very large body (lengths at and beyond 2^16 and 2^17): 0..2 ordinary
+/// requests, then PUT/PATCH with a body of 65535..131073 bytes, then possibly one more request.
+/// Returns (payload limit to configure, stream).
+pub fn gen_giant_stream(rng: &mut Rng) -> (usize, Vec<u8>) {
+    let limit = *rng.pick(&[65_536usize, 131_072, 200_000, 1 << 20]);
+    let mut cfg = GenCfg::default_for(limit);
+    cfg.allow_big = false;
+    cfg.corrupt = 0;
+    cfg.truncate = 0;
+    cfg.mutate = 0;
+    cfg.random = 0;
+    cfg.fatal_hdr = 0;
+    let mut small = cfg.clone();
+    small.limit = 64;
+    let mut s = Vec::new();
+    for k in 0..rng.below(3) {
+        s.extend(gen_request(rng, &small, &format!("g{}", k)).render());
+    }
+    let n = *rng.pick(&[65_535usize, 65_536, 65_537, 70_000, 131_071, 131_072, 131_073]);
+    let method = if rng.chance(1, 2) { "PUT" } else { "PATCH" };
+    let mut head = format!("{} /giant HTTP/1.1\r\n", method);
+    if rng.chance(1, 3) {
+        head.push_str("Expect: 100-continue\r\n");
+    }
+    head.push_str(&format!("Content-Length: {}\r\n\r\n", n));
+    s.extend(head.as_bytes());
+    let have = if rng.chance(1, 6) { rng.below(n + 1) } else { n };
+    s.extend((0..have).map(|i| (i % 251) as u8));
+    if have == n && rng.chance(1, 2) {
+        s.extend(gen_request(rng, &small, "gz").render());
+    }
+    (limit, s)
 }
